@@ -21,7 +21,8 @@ META = dict(
     stubs=["leaf observables -> stubs returning symbolic per-sample values", "torch -> vf.symtorch"],
 )
 
-SCALARS = [("int", 3), ("float", -2.5), ("np.float64", np.float64(1.5)), ("bool", True), ("zero", 0), ("negint", -4), ("zerofloat", 0.0)]
+SCALARS = [("int", 3), ("float", -2.5), ("np.float64", np.float64(1.5)), ("bool", True), ("zero", 0), ("negint", -4), ("zerofloat", 0.0),
+           ("bigint", 16777217), ("tenth", 0.1)]  # the last two are not representable in single precision
 
 
 def leaf_class():
@@ -71,6 +72,7 @@ def step(B, G, nsamp=3):
         G.eq(tag + ".stats.mean", st["mean"], mean)
         G.eq(tag + ".stats.variance", st["variance"], var)
         G.eq(tag + ".stats.std_error^2", st["std_error"] ** 2, var * O.frac(1, nsamp))
+        G.nonneg(tag + ".stats.std_error>=0", st["std_error"])
         G.fact(tag + ".stats.count", st["num_samples"] == nsamp, st["num_samples"])
 
     check("neg", -a, [-x for x in va])
